@@ -18,7 +18,7 @@ func init() {
 		ID:    "C14",
 		Level: "exploration",
 		Rule: "real engines and real replication.Manager instances on loopback TCP. Scenario matrix = workload class {single puts/deletes <= 100, > 100 entries, multi-key transactions " +
-			"(also >= 100 operations), explicit flush/log rotation on the primary, large values} x join time {before, during, after the writes} x replica event {none, clean restart on the " +
+			"(also >= 100 operations), explicit flush/log rotation on the primary, large values, 0.3-1.4MB values in transactions (catch-up chunks limited by bytes, not entries)} x join time {before, during, after the writes} x replica event {none, clean restart on the " +
 			"same directory, link cut and restore through a controllable TCP proxy} x 1-2 replicas. Convergence is restated as bounded progress: after the primary stops writing and the link " +
 			"is up, a full scan of every replica must become equal to the primary's - the wait ends when the replica's contents have not changed for 60s (normal convergence: 1-30s; the stock replica fetches ~100 entries per second; hard cap 10 min) - and still be equal 2s later. A stall is a violation whose witness holds both scans' first " +
 			"difference and the replica's status; each scenario class has its own verdict. distinct = hash(scenario parameters); non-trivial = the primary wrote >= 1 transaction or > 100 " +
@@ -165,6 +165,10 @@ func waitConverged(p, r *engine.EngineFacade, bound time.Duration) (time.Duratio
 func runC14(c *core.Ctx, res *core.Result) {
 	r := c.Rand
 	workload := []string{"singles", "many", "transactions", "big_transaction", "rotation", "large_values", "mixed"}[c.Idx%7]
+	if c.Idx%14 == 5 {
+		// a stretch of log whose entries exceed the byte budget of one catch-up chunk long before its entry budget
+		workload = "huge_chunk"
+	}
 	join := []string{"before", "during", "after"}[(c.Idx/7)%3]
 	event := []string{"none", "restart", "linkcut", "restart"}[(c.Idx/21+c.Idx/7+c.Idx)%4]
 	nrep := 1 + (c.Idx/3)%2
@@ -225,7 +229,7 @@ func runC14(c *core.Ctx, res *core.Result) {
 		return v
 	}
 	entries, txs, rotated := 0, 0, false
-	total := map[string]int{"singles": r.Range(10, 90), "many": r.Range(150, 400), "transactions": r.Range(20, 80), "big_transaction": r.Range(10, 40), "rotation": r.Range(30, 120), "large_values": r.Range(10, 40), "mixed": r.Range(60, 250)}[workload]
+	total := map[string]int{"singles": r.Range(10, 90), "many": r.Range(150, 400), "transactions": r.Range(20, 80), "big_transaction": r.Range(10, 40), "rotation": r.Range(30, 120), "large_values": r.Range(10, 40), "mixed": r.Range(60, 250), "huge_chunk": r.Range(7, 12)}[workload]
 	for i := 0; i < total; i++ {
 		if join == "during" && i == total/2 && !startReps() {
 			return
@@ -273,6 +277,24 @@ func runC14(c *core.Ctx, res *core.Result) {
 		case "large_values":
 			e.Put(key(), val([]int{4096, 40000, 300000}[r.Intn(3)]))
 			entries++
+		case "huge_chunk":
+			if r.Chance(40) {
+				e.Put(key(), val(r.Range(300000, 1400000)))
+				entries++
+				break
+			}
+			tx, err := e.BeginTransaction(false)
+			if err != nil {
+				continue
+			}
+			n := r.Range(2, 6)
+			for j := 0; j < n; j++ {
+				tx.Put([]byte(fmt.Sprintf("h%03d.%d", i, j)), val(r.Range(300000, 1400000)))
+			}
+			if tx.Commit() == nil {
+				txs++
+				entries += n
+			}
 		}
 		if event == "linkcut" && i == total/3 {
 			if len(reps) > 0 {
